@@ -318,6 +318,9 @@ pub(crate) mod verif_k3 {
     // 4 variables: x0 = 0xAAAA, x1 = 0xCCCC, x2 = 0xF0F0, x3 = 0xFF00
     /// (x0 & x1) | (x2 & x3), x0 ^ x3, x1 & (x2 | x3)
     pub const S4_A: [u16; 3] = [0xF888, 0x55AA, 0xCCC0];
+    /// x0 & x1, x1 ^ x3   (x2 unused: level 2 is EMPTY, exercises the second step of
+    /// set_var_order_common and level swaps next to an empty level)
+    pub const S4_E: [u16; 2] = [0x8888, 0x33CC];
 
     pub const PERM3: [[VarNo; 3]; 6] = [
         [0, 1, 2],
@@ -353,6 +356,14 @@ pub(crate) mod verif_k3 {
             }
             scenario_set_order::<K>(4, &S4_A, &[3, 1, 0, 2]);
             scenario_set_order::<K>(4, &S4_A, &[2, 0]);
+            for l in 0..3 {
+                scenario_level_down::<K>(4, &S4_E, l);
+            }
+            for o in [[3, 2, 1, 0], [2, 0, 1, 3], [0, 3, 2, 1], [1, 0, 3, 2], [3, 0, 2, 1]] {
+                scenario_set_order::<K>(4, &S4_E, &o);
+            }
+            scenario_set_order::<K>(4, &S4_E, &[3, 1]);
+            scenario_set_order2::<K>(4, &S4_E, &[2, 0, 1, 3], &[3, 2, 1, 0]);
         }
         #[test]
         fn k3_native_bdd() {
@@ -467,10 +478,6 @@ pub(crate) mod verif_k3 {
         fn bdd3_a_set_var_order_any() {
             set_order_any::<KBdd>(&S3_A);
         }
-        #[kani::proof]
-        fn bcdd3_a_set_var_order_any() {
-            set_order_any::<KBcdd>(&S3_A);
-        }
 
         // ---- simple BDD, 3 levels: level_down ----
         level_down_case!(bdd3_b_level_down_0, KBdd, 3, S3_B, 0);
@@ -512,15 +519,18 @@ pub(crate) mod verif_k3 {
         set_order_case!(bdd4_a_set_var_order_1302, KBdd, 4, S4_A, [1, 3, 0, 2]);
         set_order_case!(bdd4_a_set_var_order_partial_30, KBdd, 4, S4_A, [3, 0]);
 
-        // ---- BDD with complement edges (real BCDDRules), 3 levels ----
-        level_down_case!(bcdd3_b_level_down_0, KBcdd, 3, S3_B, 0);
-        level_down_case!(bcdd3_b_level_down_1, KBcdd, 3, S3_B, 1);
-        level_down_case!(bcdd3_c_level_down_0, KBcdd, 3, S3_C, 0);
-        level_down_case!(bcdd3_c_level_down_1, KBcdd, 3, S3_C, 1);
-        set_order_case!(bcdd3_b_set_var_order_102, KBcdd, 3, S3_B, [1, 0, 2]);
-        set_order_case!(bcdd3_b_set_var_order_120, KBcdd, 3, S3_B, [1, 2, 0]);
-        set_order_case!(bcdd3_b_set_var_order_210, KBcdd, 3, S3_B, [2, 1, 0]);
-        set_order_case!(bcdd3_c_set_var_order_201, KBcdd, 3, S3_C, [2, 0, 1]);
-        set_order_case!(bcdd3_c_set_var_order_210, KBcdd, 3, S3_C, [2, 1, 0]);
+        // ---- simple BDD, 4 levels, one EMPTY level (x2 unused) ----
+        level_down_case!(bdd4_e_level_down_1, KBdd, 4, S4_E, 1);
+        level_down_case!(bdd4_e_level_down_2, KBdd, 4, S4_E, 2);
+        set_order_case!(bdd4_e_set_var_order_3210, KBdd, 4, S4_E, [3, 2, 1, 0]);
+        set_order_case!(bdd4_e_set_var_order_2013, KBdd, 4, S4_E, [2, 0, 1, 3]);
+        set_order_case!(bdd4_e_set_var_order_partial_31, KBdd, 4, S4_E, [3, 1]);
+
+        // ---- BDD with complement edges ----
+        // No Kani harnesses: `ReducedOrNew<REdge, RNode>` is niche-optimised when `E::Tag` is the
+        // real `EdgeTag` (the discriminant lives in the spare values of the tag byte), Kani reads it
+        // through a union with nondeterministic padding and CBMC cannot constant-fold that read, so
+        // every `match` on the result of `reduce` is explored both ways (measured: building S3_A alone
+        // = 650 k steps, 21 k non-trivial VCCs, > 11.7 GB).  `KBcdd` is exercised by the native tests only.
     }
 }
